@@ -9,7 +9,7 @@ CLAIMS = {
              "inspection of token text for shell syntax is controlled by a test of the same token's quote tag; execve's argv is a "
              "lossless map of the token texts; the tokenizer keeps a trace (tag or backslash) of every escaped character a later "
              "pass acts on (explored per character class over its loop); the tokenizer / list splitter never use a character "
-             "counter as a byte offset. Necessary conditions of the property; equality of argv bytes for arbitrary input is not "
+             "counter as a byte offset and split only at ASCII blanks. Necessary conditions of the property; equality of argv bytes for arbitrary input is not "
              "decided.",
         note="trusted: rustc MIR + callee resolution; inspector class table in sa/etag.py; later-pass trigger set listed in sa/rules/c01.py",
         ref="4/C01"),
@@ -19,7 +19,7 @@ CLAIMS = {
         text="Decides on all paths of run_pipeline / run_single_program / wait_fg_job: n-1 pipes and n stages, the child-side dup2 "
              "wiring, the parent's staggered closes that EOF propagation needs, the wait obligation and its exact guards, wait "
              "target by pid (not group), status of the last pid (128+signal), one fork site whose child arm never returns into "
-             "shell code, SIGCHLD given an explicit disposition before any command. Byte delivery and scheduling are not decided.",
+             "shell code, SIGCHLD given an explicit disposition before any command, ignored signals reset in the child before exec. Byte delivery and scheduling are not decided.",
         note="trusted: MIR, libc/nix semantics; counting lemma for vector-held pipes (DESIGN 3, E-FD)",
         ref="4/C02"),
     "C03": dict(
@@ -36,8 +36,9 @@ CLAIMS = {
                   "search-direction and stale-descriptor rules",
         text="Decides truncate/append call sets and the `>>` selector, descriptor targets of the child-side redirect loop, "
              "forward iteration (last redirection wins, for output and input), every dup2 in the Child region, open failures reach "
-             "a non-zero exit before exec / are not dropped, here-string feeding, and that the child touches no released pipe "
-             "number while the here-string pipe is live. Redirection spelling regexes and file contents are not decided.",
+             "a non-zero exit before exec / are not dropped, here-string feeding, that the child touches no released pipe "
+             "number while the here-string pipe is live, that no word with `>` is dropped silently by the spelling recogniser and "
+             "no recorded redirection is removed or skipped afterwards. Redirection spelling regexes and file contents are not decided.",
         note="trusted: MIR, std::fs::OpenOptions semantics",
         ref="4/C04"),
     "C05": dict(
@@ -65,7 +66,7 @@ CLAIMS = {
         text="Decides that every site that may hand the terminal to a job gives it back on all paths, the hand-over guard "
              "(has_terminal, isatty, not background, stage 0), setpgid on both sides of fork before exec, the signal-mask bracket "
              "in give_terminal_to, SIGCONT to the whole group unconditionally in fg/bg, background polling after every input "
-             "line, and the job-state clauses shared with C06.",
+             "line, ignored job-control signals reset in the child, and the job-state clauses shared with C06.",
         note="trusted: MIR, libc; real process groups / signal delivery not decided",
         ref="4/C07"),
     "C08": dict(
@@ -96,8 +97,8 @@ CLAIMS = {
                   "constant-argument rule, pass-order rule, edit-list rule, regex shape comparison",
         text="Decides that captured output cannot reach a replacement template unescaped or be rescanned for $(, the "
              "substitution loop cannot stutter and its splice pattern is as wide as its gate, capture=true at the three sites, "
-             "trailing-newline-only trimming, read to EOF, one expansion per line, no interpreting pass after substitution, and "
-             "positions stay valid until used.",
+             "trailing-newline-only trimming, read to EOF, one expansion per line, no interpreting pass after substitution, "
+             "positions stay valid until used, and bracketed counters are restored on every path.",
         note="trusted: MIR, regex replacement-template semantics",
         ref="4/C11"),
     "C12": dict(
@@ -105,8 +106,10 @@ CLAIMS = {
                   "loop-shape rule, template taint, provenance rules",
         text="Decides: no expansion of tagged tokens, produced words with spaces get a quote tag, pending edits applied in "
              "descending order on the vector as scanned, a glob never yields an empty list, the two counting loops of brace "
-             "ranges, HOME read at expansion time and not as a template, the `.`/`..` filter. Produced word lists (cartesian "
-             "order, glob matches) are not decided.",
+             "ranges, HOME read at expansion time and not as a template, the `.`/`..` filter, ranges keep the text around the "
+             "braces, a group's closing brace is consumed once, only `~` / `~/` are rewritten (pattern evaluated as data), a "
+             "`./` prefix is kept, every pass sees the previous passes' words. Produced word lists (cartesian order, glob "
+             "matches) are not decided.",
         note="trusted: MIR; value-level results out of reach",
         ref="4/C12"),
     "C13": dict(
@@ -123,7 +126,7 @@ CLAIMS = {
         text="Decides that the top rule is anchored at both ends, each walker's rule set covers the grammar's child sets, "
              "break/continue/first-true-branch propagation, keywords cannot match empty, leading indentation, agreement of the "
              "grammar with a reference block-structure recogniser on all keyword sequences up to a bound, for-variable binding and "
-             "word splitting, and the condition verdict by the last status.",
+             "word splitting, the condition verdict by the last status, and that no text runs unparsed.",
         note="trusted: pest semantics, MIR; equivalence of the interpreter's effects with a reference interpreter not decided",
         ref="4/C14"),
     "C15": dict(
@@ -131,7 +134,7 @@ CLAIMS = {
                   "edit-list, accumulator and inc/dec pairing rules",
         text="Decides status plumbing for functions/source/scripts/exit, positional base index, exit_on_error test after every "
              "command, source/functions run in the shell process, the positional gate covers its rewriter, results written to the "
-             "slot read, result lists only grow, depth counters restored on every path, and redefinition overwrites.",
+             "slot read, result lists only grow, depth counters restored on every path, redefinition overwrites, and source / function calls always run what was named.",
         note="trusted: MIR",
         ref="4/C15"),
     "C16": dict(
@@ -147,15 +150,15 @@ CLAIMS = {
                   "for name shapes, edit-list and overwrite rules",
         text="Decides that alias lookup happens only at head-of-stage positions, the flag is cleared on every path that consumes "
              "a word, replaced tokens are not looked up again, unalias removes by exact key, redefinition overwrites, the value "
-             "replaces the word it was looked up for, and which accepted name shapes the tokenizer treats as assignment heads.",
+             "replaces the word it was looked up for and enters the token list only through the tokenizer, and which accepted name shapes the tokenizer treats as assignment heads.",
         note="trusted: MIR",
         ref="4/C17"),
     "C18": dict(
         technique="static analysis: SQL taint (format! into Connection::execute/prepare) with explicit sanitizers, guard rule, "
                   "error-path must-reach",
         text="Decides that no user-controlled text reaches SQL text unless quote-doubled inside quotes or bound as a parameter, "
-             "LIKE/ESCAPE consistency, the recording guard (leading space / immediate repeat, on the typed line) in main, and "
-             "that a failed INSERT is reported.",
+             "LIKE/ESCAPE consistency, the recording guard (leading space / immediate repeat, on the typed line) in main, "
+             "that a failed INSERT is reported, and that no statement renumbers the row ids shown to the user.",
         note="trusted: MIR, rusqlite API; durability across processes not decided",
         ref="4/C18"),
     "C19": dict(
